@@ -100,8 +100,19 @@ static void print_env(void) {
   const char *b = "\nENV{\n", *e = "}ENV\n";
   wr_all(1, b, strlen(b));
   for (char **p = environ; *p; ++p) {
-    wr_all(1, *p, strlen(*p));
-    wr_all(1, "\n", 1);
+    /* backslash and newline are escaped so that one entry is one line */
+    size_t n = strlen(*p), k = 0;
+    char *line = (char *)malloc(2 * n + 2);
+    if (!line) _exit(97);
+    for (size_t i = 0; i < n; ++i) {
+      char ch = (*p)[i];
+      if (ch == '\\') { line[k++] = '\\'; line[k++] = '\\'; }
+      else if (ch == '\n') { line[k++] = '\\'; line[k++] = 'n'; }
+      else line[k++] = ch;
+    }
+    line[k++] = '\n';
+    wr_all(1, line, k);
+    free(line);
   }
   wr_all(1, e, strlen(e));
   int fd = ctlfd();
